@@ -65,7 +65,7 @@ impl Check for Upgrade {
                     if *signed { w.set_auth(&[(*op, Inv::new(&id, "migrate", (MigData { x: *val }, a(*op)).into_val(e)))]) } else { w.set_auth(&[]) }
                     let g = c.try_migrate(&MigData { x: *val }, &a(*op)).is_ok();
                     let x = *signed && *op == 0 && flag;
-                    st.hit(if g { "tx.ok" } else { "tx.refused" });
+                    st.tx("migrate", g);
                     if g != x { return Err(violation("migrate.once_per_upgrade", "migrate", i, format!("{s:?}: real {g} model {x}; flag {flag}"))); }
                     if x { flag = false; count += 1; }
                 }
